@@ -116,6 +116,24 @@ Theorem c20_failure_has_diag : forall f e, f_help_md f = false ->
 Proof. exact failure_has_diag. Qed.
 Print Assumptions c20_failure_has_diag.
 
+(* ... and the diagnostic is visible: "Error: .." on standard error, or a logger message on standard
+   error / in the --log-file (opened before) — unless the logger is silenced.  Known finding F-C20b:
+   with --verbose=off a failing run prints nothing (hypothesis [f_verbose_off f = false]; witness below) *)
+Theorem c20_failure_diag_visible : forall f e, f_verbose_off f = false -> f_help_md f = false ->
+  snd (run f e) <> 0 ->
+  diag_visible f (fst (run f e)) /\
+  (forall lp, f_log_file f = Some lp -> In (Diag Logger) (fst (run f e)) -> In (Create lp) (fst (run f e))).
+Proof.
+  intros f e Hv Hh Hne. split; [exact (failure_diag_visible f e Hv Hh Hne)|].
+  intros lp. exact (logger_diag_after_log_open f e lp).
+Qed.
+Print Assumptions c20_failure_diag_visible.
+
+Theorem c20_silent_failure_known_witness : exists f e,
+  f_verbose_off f = true /\ f_help_md f = false /\ snd (run f e) = 1 /\ ~ diag_visible f (fst (run f e)).
+Proof. exact silent_failure_witness. Qed.
+Print Assumptions c20_silent_failure_known_witness.
+
 (* a failed write is a broken pipe (status 0, silently) or an io error (status 1, "Error: .." on stderr) *)
 Theorem c20_io_error_status : forall f e w r, f_help_md f = false ->
   In (WriteFailed w r) (fst (run f e)) ->
